@@ -43,7 +43,9 @@ func extractRules(path string) ([]shippedRule, error) {
 	if err != nil {
 		return nil, err
 	}
-	text := func(n ast.Node) string { return string(src[fset.Position(n.Pos()).Offset:fset.Position(n.End()).Offset]) }
+	text := func(n ast.Node) string {
+		return string(src[fset.Position(n.Pos()).Offset:fset.Position(n.End()).Offset])
+	}
 	lit := func(e ast.Expr) string {
 		if bl, ok := e.(*ast.BasicLit); ok && bl.Kind == token.STRING {
 			if s, err := strconv.Unquote(bl.Value); err == nil {
@@ -147,7 +149,9 @@ func fromQuickFix(l *exprgen.Linted, w linter.Warning, _ string) (string, string
 func fromRegexp(re *regexp.Regexp, origIdx, replIdx int) func(*exprgen.Linted, linter.Warning, string) (string, string, bool) {
 	return func(_ *exprgen.Linted, w linter.Warning, _ string) (string, string, bool) {
 		m := re.FindStringSubmatch(w.Text)
-		if m == nil {
+		if m == nil || m[origIdx] == m[replIdx] {
+			// "could simplify X to X": go/printer drops the parentheses around parameter types, the
+			// message shows no rewrite that could be executed
 			return "", "", false
 		}
 		return m[origIdx], m[replIdx], true
@@ -165,7 +169,54 @@ func classPurity(orig, _ string) string {
 	return "unclassified"
 }
 
-var ruleSpecs = []ruleSpec{
+// hand-written checkers whose diagnostics promise an equivalent rewrite (oracle only)
+var handSpecs = []ruleSpec{
+	{checker: "underef", kind: "stmts",
+		gen: func(p func(...string) string) string {
+			switch p("a", "s", "w", "i") {
+			case "a":
+				return "pa := &[3]int{a, b, c}; c = (*pa)[" + p("0", "1", "a") + "] + 1"
+			case "s":
+				return "ps := &st{a}; c = (*ps).n + b"
+			case "w":
+				return "ps := &st{a}; (*ps).n = b; c = ps.n"
+			}
+			return "pa := &[3]int{a, b, c}; (*pa)[" + p("0", "2", "fi()") + "] = 7; c = pa[0] + pa[2]"
+		},
+		rewrite: fromRegexp(simplifyToRe, 1, 2), class: classPurity},
+	{checker: "newDeref", kind: "stmts",
+		gen: func(p func(...string) string) string {
+			return p("c = *new(int) + a", "p = *new(float64) + q", "s = *new(string) + t", "k = *new(bool) || l", "u = *new(uint) + v",
+				"xs = *new([]int)", "var z st = *new(st); c = z.n", "c = int(*new(int32)) + a", "p = float64(*new(float32))", "c = len(*new([2]int))",
+				"c = len(*new(map[string]int))", "var pp *int = *new(*int); k = pp == nil")
+		},
+		rewrite: fromRegexp(replaceRe, 1, 2), class: classPurity},
+	{checker: "typeUnparen", kind: "stmts",
+		gen: func(p func(...string) string) string {
+			return p("var z (int) = a; c = z", "var zz [](int) = xs; c = len(zz)", "f := func(x (int)) int { return x + 1 }; c = f(a)",
+				"var z *(int) = &a; c = *z + 1", "var m map[(string)]int; c = len(m)", "c = int((uint)(u))")
+		},
+		rewrite: fromRegexp(simplifyToRe, 1, 2), class: classPurity},
+	{checker: "unlambda", kind: "stmts",
+		gen: func(p func(...string) string) string {
+			switch p("f", "m", "m", "g") {
+			case "f":
+				return "f := func(x int) int { return hi(x) }; c = f(a) + f(b)"
+			case "g":
+				return "f := func() int { return fi() }; c = f() + f()"
+			}
+			return "sv := st{a}; f := func(x int) int { return sv.add(x) }; sv.n = " + p("b", "a + 1", "7") + "; c = f(1)"
+		},
+		rewrite: fromRegexp(replaceRe, 1, 2),
+		class: func(orig, _ string) string {
+			if strings.Contains(orig, "sv.add") {
+				return "method-value-capture"
+			}
+			return classPurity(orig, "")
+		}},
+}
+
+var ruleSpecs = append([]ruleSpec{
 	{checker: "sloppyLen", kind: "expr",
 		gen: func(p func(...string) string) string {
 			return "len(" + p("s", "xs", "bs", "fs()", "fxs()", "s + t") + ") " + p("<= 0", "<= 0", "<= 00")
@@ -302,7 +353,7 @@ var ruleSpecs = []ruleSpec{
 			}
 			return body, strings.Replace(body, "switch true {", "switch {", 1), true
 		}, class: classPurity},
-}
+}, handSpecs...)
 
 const rulesLintHeader = "package p\n\nimport (\n\t\"bytes\"\n\t\"strings\"\n\t\"time\"\n)\n\nvar _ = bytes.Equal\nvar _ = strings.Index\nvar _ time.Time\n"
 
@@ -402,7 +453,7 @@ func runRules(meta *common.Meta, tier string, seed int64, outDir string) {
 			}
 			fired[sp.checker]++
 			o, n := orig, repl
-			squash := func(x string) string { return strings.ReplaceAll(x, " ", "") }
+			squash := func(x string) string { return strings.Join(strings.Fields(x), "") }
 			if squash(orig) == squash(p.body) {
 				// $$ is printed by go/printer, the analysed text is the generator's spelling
 				orig = p.body
@@ -415,6 +466,18 @@ func runRules(meta *common.Meta, tier string, seed int64, outDir string) {
 					continue
 				}
 				o, n = p.body, strings.Replace(p.body, orig, "("+repl+")", 1)
+			}
+			if p.kind == "stmts" && orig != p.body && !strings.Contains(p.body, orig) {
+				// go/printer's spelling of the cause vs the generator's: match modulo white space
+				var parts []string
+				for _, f := range strings.Fields(orig) {
+					parts = append(parts, regexp.QuoteMeta(f))
+				}
+				if re, err := regexp.Compile(strings.Join(parts, `\s*`)); err == nil {
+					if loc := re.FindStringIndex(p.body); loc != nil {
+						orig = p.body[loc[0]:loc[1]]
+					}
+				}
 			}
 			if p.kind == "stmts" && orig != p.body {
 				if !strings.Contains(p.body, orig) {
